@@ -818,14 +818,17 @@ func eq1(a, b [][]F, nilMatters bool) bool {
 // Diff compares two models: kind, layout (collections: reported layout), part
 // structure with empty parts in position, and every ordinate bitwise. SRID is
 // compared when srid is true. It returns "" when equal.
-func Diff(want, got *G, srid bool) string {
+func Diff(want, got *G, srid bool) string { return DiffOpt(want, got, srid, true) }
+
+// DiffOpt is Diff with the layout comparison optional (GeoJSON carries no layout).
+func DiffOpt(want, got *G, srid, layout bool) string {
 	if want.Kind != got.Kind {
 		return fmt.Sprintf("kind %s != %s", got.Kind, want.Kind)
 	}
 	if srid && want.SRID != got.SRID {
 		return fmt.Sprintf("%s: SRID %d != %d", want.Kind, got.SRID, want.SRID)
 	}
-	if want.ReportedLayout() != got.ReportedLayout() {
+	if layout && want.ReportedLayout() != got.ReportedLayout() {
 		return fmt.Sprintf("%s: layout %v != %v", want.Kind, got.ReportedLayout(), want.ReportedLayout())
 	}
 	switch want.Kind {
@@ -869,7 +872,7 @@ func Diff(want, got *G, srid bool) string {
 			return fmt.Sprintf("collection: %d members != %d", len(got.Members), len(want.Members))
 		}
 		for i := range want.Members {
-			if d := Diff(&want.Members[i], &got.Members[i], srid); d != "" {
+			if d := DiffOpt(&want.Members[i], &got.Members[i], srid, layout); d != "" {
 				return fmt.Sprintf("member %d: %s", i, d)
 			}
 		}
